@@ -49,6 +49,11 @@ class Exec(ExprMixin, CallMixin, BuiltinMixin, StmtMixin, ExecBase):
         if kind == "class":
             raise BindError("%s is a class" % c.qn)
         self.cur_fn = self.short(c.qn)
+        for d in getattr(node, "decorator_list", []) or []:
+            dn = d.id if isinstance(d, ast.Name) else d.attr if isinstance(d, ast.Attribute) else (d.func.id if isinstance(d, ast.Call) and isinstance(d.func, ast.Name) else
+                                                                                             d.func.attr if isinstance(d, ast.Call) and isinstance(d.func, ast.Attribute) else "?")
+            if dn not in ("property", "staticmethod", "classmethod", "abstractmethod", "dataclass", "setter", "overload", "wraps"):
+                raise BindError("%s is decorated with @%s, whose effect on the function is not modelled" % (c.qn, dn))
         self.force_inline = set(c.inline_callees or [])
         self.typing_exceptions = dict(c.typing_exceptions or {})
         self.sha[c.qn] = self.repo.seg_sha(mod, node)
